@@ -63,19 +63,19 @@ theorem planes_spec (d : Nat) :
 theorem rotate_eq_prod (d : Nat) (angles : List ℝ) :
     toM d (matrixRotate d angles)
       = (((signedSeq d (setAngles d angles)).map fun p => toM d (givens p.1 p.2)).reverse).prod := by
-  rw [matrixRotate, toM_foldl_rotate, toM_eye, mul_one]; rfl
+  rw [matrixRotate, toM_foldl_rotate, toM_ofArr_tabArr, toM_eye, mul_one]; rfl
 
 /-- and of `matrix_derotate`: `D = G_0(-s_0 a_0) · G_1(-s_1 a_1) ⋯ G_{n-1}(-s_{n-1} a_{n-1})`. -/
 theorem derotate_eq_prod (d : Nat) (angles : List ℝ) :
     toM d (matrixDerotate d angles)
       = ((signedSeq d (setAngles d angles)).map fun p => toM d (givens p.1 (-p.2))).prod := by
-  rw [matrixDerotate, toM_foldl_derotate, toM_eye, one_mul, signedSeq_neg, List.map_map]; rfl
+  rw [matrixDerotate, toM_foldl_derotate, toM_ofArr_tabArr, toM_eye, one_mul, signedSeq_neg, List.map_map]; rfl
 
 /-- `matrix_rotate(dim, angles)` is a proper orthogonal matrix for every dimension and every
     angle vector (too short, too long or empty lists included). -/
 theorem rotate_special_orthogonal (d : Nat) (angles : List ℝ) :
     toM d (matrixRotate d angles) ∈ Matrix.specialOrthogonalGroup (Fin d) ℝ := by
-  rw [matrixRotate, toM_foldl_rotate, toM_eye, mul_one]
+  rw [matrixRotate, toM_foldl_rotate, toM_ofArr_tabArr, toM_eye, mul_one]
   apply Submonoid.list_prod_mem
   intro m hm
   simp only [List.mem_reverse, List.mem_map] at hm
@@ -92,8 +92,8 @@ theorem rotate_orthogonal (d : Nat) (angles : List ℝ) :
 /-- `matrix_derotate` is the transpose of `matrix_rotate` … -/
 theorem derotate_eq_transpose (d : Nat) (angles : List ℝ) :
     toM d (matrixDerotate d angles) = (toM d (matrixRotate d angles))ᵀ := by
-  rw [matrixDerotate, toM_foldl_derotate, toM_eye, one_mul, matrixRotate, toM_foldl_rotate, toM_eye,
-    mul_one, signedSeq_neg, ← prod_map_transpose, List.map_map, List.map_map]
+  rw [matrixDerotate, toM_foldl_derotate, toM_ofArr_tabArr, toM_eye, one_mul, matrixRotate,
+    toM_foldl_rotate, toM_ofArr_tabArr, toM_eye, mul_one, signedSeq_neg, ← prod_map_transpose, List.map_map, List.map_map]
   congr 1
   apply List.map_congr_left
   intro p hp
